@@ -61,6 +61,15 @@ CHECKS = {
    category="model_checking", design_ref="§5 C20",
    text="Schedules of two and three threads evaluating the same new dimension/prefix/unit/logarithm/logarithmic unit are explored systematically on the real code (all 1-preemption and sampled/all 2-preemption schedules at line granularity, sampled 3-thread and random schedules); every run's history and final table must be accepted by TLC as a behaviour of InternAtomic for some choice of linearization points. The PlusCal model of the shipped check-then-insert must violate C20_Single in TLC and the locked variant must satisfy it.",
    note="Line granularity inside the measured package; lru_cache wrappers are opaque steps; a thread not back within 20 ms is treated as blocked (any synchronisation scheme is accepted, only the histories are judged)."),
+
+ "C16": dict(engine="lr", technique="TLA+ spec LR.tla: product of the two LALR tables (shipped vs built from the grammar) explored completely by TLC, LR interpreter run on every token string up to a bound, and TLC trace validation of the shipped parser ENGINE's recorded state stacks against the shipped table; plus differential parsing",
+   category="model_checking", design_ref="§5 C16",
+   text="The reachable product of the two tables is finite, so TLC's exploration of it is a complete decision of table equality up to state renaming (rows, action kinds, rule signatures, start/end states, rule sets); terminals, ignore list, lexer type and tree options are compared as constants in the same model; every token string up to the bound is run through both tables; the shipped engine's feed_token is recorded (no source edit) and TLC checks each recorded run is a behaviour of the shipped table; trees of shipped vs fresh parser are compared on instantiations of all those strings and on generated text.",
+   note="Fresh parser built with lark 1.3.1 through lark.tools.standalone's build function with the Makefile's options; lexer compared as data, not by automaton equivalence."),
+ "C17": dict(engine="lr", technique="TLA+ spec LR.tla run mode: TLC enumerates every token string up to a bound with its accept/reject verdict under the shipped table; each is instantiated and parsed by Unit.parse/Quantity.parse twice (outcome alphabet, determinism, registries untouched, magnitude kind), plus generated and arbitrary text",
+   category="model_checking", design_ref="§5 C17",
+   text="Token level: exhaustive up to the bound for both start symbols, with the spec prescribing accept/reject; character level: whitespace variants, alphabet-restricted random text, arbitrary Unicode (generated, not exhausted). Only Unit/Quantity results or ParseError/KeyError are allowed; a second parse must agree; name/symbol registries must be unchanged; int tokens give int magnitudes and float tokens floats.",
+   note="Model checking at token level; exploration strength for arbitrary text (stated in evidence)."),
 }
 BUILT = set(CHECKS)
 m = {"version": 1, "setup_cmd": "./setup.sh",
@@ -73,6 +82,7 @@ m = {"version": 1, "setup_cmd": "./setup.sh",
    {"name": "quantities", "path": "spec/Num.tla spec/Quantities.tla spec/MC_Quantities.tla harness/quantities.py", "serves_properties": ["C03", "C06", "C11", "C12"], "kind_free_text": "TLC as exhaustive small-scope enumerator and exact-arithmetic oracle + replay on the real library"},
    {"name": "temperature", "path": "spec/Temp.tla spec/MC_Temp.tla harness/temperature.py", "serves_properties": ["C10"], "kind_free_text": "TLC exact affine oracle + replay"},
    {"name": "intern", "path": "spec/InternAtomic.tla spec/MC_InternTrace.tla spec/InternShipped.tla harness/sched.py harness/intern.py", "serves_properties": ["C20"], "kind_free_text": "systematic schedule exploration of the real code + TLC trace validation (linearizability)"},
+   {"name": "lr", "path": "spec/LR.tla spec/MC_LR.tla harness/lr.py", "serves_properties": ["C16", "C17"], "kind_free_text": "complete product of LALR tables + LR interpreter + engine trace validation + differential parsing"},
    {"name": "registry", "path": "spec/Registry.tla spec/MC_Registry.tla harness/registry.py harness/alpha.py", "serves_properties": ["C01", "C02", "C15"], "kind_free_text": "TLC model checking + spec->code replay of every transition (fork tree)"},
  ],
  "checks": [], "notes": "Every check: ./check <id> [--tier quick|thorough]; exit 0 held / 1 VIOLATION / 2 machinery failure. known_findings.txt lists genuine defects left unrepaired and repairs made.",
